@@ -64,6 +64,9 @@ pub struct Server {
     /// a request without this header (name, value) is answered with 401 and an error page: a
     /// server that wants the --http-header credentials on every request, retries included
     pub require_header: Option<(String, String)>,
+    /// after this many requests the server serves other content (the file was replaced, a proxy
+    /// went stale): (requests served from `content`, the new content)
+    pub switch_after: Option<(usize, Arc<Vec<u8>>)>,
 }
 
 pub type SharedServer = Arc<Mutex<Server>>;
@@ -96,7 +99,7 @@ fn fragment(body: &[u8], frag: BodyFrag, max_delay_ns: u64, tape: &mut Tape) -> 
 
 impl Server {
     pub fn new(content: Arc<Vec<u8>>) -> Self {
-        Server { content, frag: BodyFrag::One, max_delay_ns: 0, script: Vec::new(), default_fault: None, log: Vec::new(), require_header: None }
+        Server { content, frag: BodyFrag::One, max_delay_ns: 0, script: Vec::new(), default_fault: None, log: Vec::new(), require_header: None, switch_after: None }
     }
 
     fn handle(&mut self, req: &ReqInfo, tape: &mut Tape) -> ResponsePlan {
@@ -111,6 +114,13 @@ impl Server {
         }
         let parsed = req.range.as_deref().and_then(parse_range);
         self.log.push(LoggedRequest { range: req.range.clone(), parsed, time_ns: req.time_ns, fault: fault.clone(), headers: req.headers.clone() });
+        if let Some((n, other)) = &self.switch_after {
+            if idx >= *n {
+                self.content = other.clone();
+                self.switch_after = None;
+                simkit::try_with(|s| s.count("net-content-switched"));
+            }
+        }
         let len = self.content.len() as u64;
         let mut status = 206;
         let mut body: Vec<u8> = match parsed {
